@@ -163,7 +163,7 @@ pub fn run(ctx: &Ctx) -> Report {
             collisions_checked += 1;
             let (m1, m2) = (dom.get(w[0].1), dom.get(w[1].1));
             if m1 != m2 {
-                let (b1, b2) = (Frame::from(m1.clone()).to_bytes(), Frame::from(m2.clone()).to_bytes());
+                let Ok((b1, b2)) = catch(|| (Frame::from(m1.clone()).to_bytes(), Frame::from(m2.clone()).to_bytes())) else { continue };
                 if b1 == b2 {
                     all.violation(
                         ID,
@@ -218,7 +218,8 @@ pub fn run(ctx: &Ctx) -> Report {
     all.evals += seq_evals;
     for i in [3u64, dom.n_sd1 + 700, dom.n_sd1 + dom.n_sd2 + 6, n - 5] {
         let m = dom.get(i);
-        all.samples.push(json!({"message": msg_str(&m), "wire": crate::util::show_bytes(&Frame::from(m.clone()).to_bytes_with_newline())}));
+        let wire = catch(|| Frame::from(m.clone()).to_bytes_with_newline()).unwrap_or_default();
+        all.samples.push(json!({"message": msg_str(&m), "wire": crate::util::show_bytes(&wire)}));
     }
     let nt = rep.absorb(all);
     rep.states = nt;
@@ -252,7 +253,7 @@ pub fn replay(_ctx: &Ctx, case: &Value) -> Result<Vec<Violation>, String> {
         }
         Some("pair") => {
             let (m1, m2) = (msg_from_json(&case["m1"]), msg_from_json(&case["m2"]));
-            let (b1, b2) = (Frame::from(m1.clone()).to_bytes(), Frame::from(m2.clone()).to_bytes());
+            let (b1, b2) = catch(|| (Frame::from(m1.clone()).to_bytes(), Frame::from(m2.clone()).to_bytes())).map_err(|p| format!("encoding panicked: {}", p.message))?;
             if m1 != m2 && b1 == b2 {
                 Ok(vec![Violation::new("injective", format!("{}-and-{}", kind_name(&m1), kind_name(&m2)), "same wire", case.clone(), 0)])
             } else {
